@@ -724,7 +724,8 @@ def taper_some (rng, spec, prob, kind = None, min_radii = None):
         if g ['k'] == 'w' and g ['n'] >= 3 and not g.get ('taper') and rng.random () < prob:
             p1, p2 = np.array (g ['p1']), np.array (g ['p2'])
             d  = p2 - p1
-            on = any (np.linalg.norm (np.cross (d, x - p1)) < 1e-9 * (d @ d) and -1e-9 <= (x - p1) @ d / (d @ d) <= 1 + 1e-9 for x in marks)
+            # a mark on an end of the wire (junction or ground pulse) stays where it is under tapering
+            on = any (np.linalg.norm (np.cross (d, x - p1)) < 1e-9 * (d @ d) and 1e-9 < (x - p1) @ d / (d @ d) < 1 - 1e-9 for x in marks)
             if not on:
                 g ['taper'] = [int (rng.integers (1, 4)) if kind is None else kind, (None if min_radii is None else float (min_radii * g ['r'])), None]
                 n += 1
